@@ -884,7 +884,8 @@ def noop_lemma(chk):
     to NoOpUnmarshaller, whose __call__ returns its argument (both from the current source)."""
     import inspect as _inspect
     I = make_interp()
-    func = "typelib.unmarshals.api._get_unmarshaller"
+    from props.c11 import find_dispatcher
+    func = find_dispatcher(make_interp().src, "typelib.unmarshals.api")
     st = {"cur": {}}
 
     def inst(I, path, cv, args, kwargs):
